@@ -7,13 +7,17 @@ CONF = dict(
  'drift: (drift, interval) pairs incl. realistic drifts (1 us/s .. 1 ms/s and random) with intervals for which drift x interval exceeds 2^63 ns^2 while the '
  'allowance drift x interval / 1e9 stays below 2^62 ns (500 us/s x 6 h, 50 us/s x 60 h, log-uniform up to the limit; tag drift-product-over-int64), and triples '
  '(drift, d1, d2) observed at d1, d2 and d1 + d2 (kind units.drift_add); tag drift-oracle = the pair lies in the range the drift oracle constrains; 48-bit CSPTP seconds x nanoseconds incl. range ends and out-of-range times; 64-bit correction fields; '
- '(t0,t2,theta,delta,c1,c3) tuples for the offset/delay formulas. Non-trivial: negative nanosecond counts, non-zero in-range ppm values, non-zero drift, wire '
+ '(t0,t2,theta,delta,c1,c3) and (t0,t2,theta,d1,d2,c1,c3,utc) tuples for the offset/delay formulas with absolute times t0, t2 drawn from present-day Unix times '
+ '(2020-2040, tag modern-time), the epoch, the ends of the int64 nanosecond range (tag extreme-time) and anything between; four arbitrary or present-day timestamps '
+ 'for kind csptp.formulas. Non-trivial: negative nanosecond counts, non-zero in-range ppm values, non-zero drift, wire '
  'round trips, negative correction fields with sub-ns bits, formula recovery cases; distinct = distinct (kind, input)'),
     assumptions=['float64 arithmetic of Go on amd64 = IEEE-754 binary64 round-to-nearest-even without FMA contraction (Flocq BinarySingleNaN); int64(float64) = CVTTSD2SI '
  '(-2^63 when out of range)',
  'drift clause: 0 < drift <= MaxInt64, 0 <= interval <= MaxInt64, drift x interval < 2^62 x 10^9 (allowance below 2^62 ns); negative intervals/drifts and allowances in '
  '[2^62, 2^63) ns are compared with the model only (oracle true there)',
- "CSPTP formula theorems: all magnitudes below 2^60 ns so that no int64 operation wraps (the property's 'combinations that do not overflow')"],
+ "CSPTP formula theorems: every int64 subtraction/addition of the Go code stays in int64 (t1-t0, t3-t2, these minus the corrections, their difference/sum; for the one-way delays also "
+ "the UTC correction) - the property's 'combinations that do not overflow'; the absolute times are unrestricted",
+ 'frequency round trip: |x| <= 32768000 scaled ppm (the kernel range, 500 ppm); single directions: every float64 with |f| x 65536e6 < 2^62 resp. every int64'],
     trusted=['Flocq 4 (IEEE754.BinarySingleNaN/Binary/Bits) as the float64 semantics; theorems of this property that are purely integer are closed under the global '
  'context',
  'modelled, not verified: golang.org/x/sys/unix.Timeval layout, time.Duration.Seconds, Go float<->int conversions'],
@@ -21,11 +25,11 @@ CONF = dict(
  'csptp conversion/offset formulas; differential execution of the extracted model (bit-exact floats) against the Go functions'),
     level_text=('Theorems quantify over all int64 nanosecond counts, all 48-bit/ns CSPTP timestamps, all 64-bit correction fields and all non-overflowing offset/delay '
  'combinations; the float functions are modelled bit-exactly with Flocq and compared bit-for-bit with Go every run; the property oracle (normalisation, +-1 '
- 'ulp ppm round trip, drift allowance >= 0, zero for the empty interval, within 1 ns + 2^-48 of drift x interval / 1e9, monotone and additive over two '
- "intervals, floor of correction fields, exact recovery of offset/delay) is evaluated on the implementation's outputs"),
+ 'ulp ppm round trip, each conversion direction against exact rational arithmetic on the decoded float (sign, 2^-52 resp. 2^-51 relative), drift allowance >= 0, zero for the empty interval, within 1 ns + 2^-48 of drift x interval / 1e9, monotone and additive over two '
+ "intervals, floor of correction fields, exact recovery of offset/delay and of both one-way delays under a UTC correction, all four CSPTP results against unbounded integer arithmetic) is evaluated on the implementation's outputs"),
     level_note=('Trusted: Coq kernel, Flocq as float semantics, hand-written model validated by the correspondence run, extraction, harness. The +-1 ppm round-trip clause is '
- 'proved by Flocq error analysis where listed in the evidence theorems, otherwise enforced by the oracle on the sampled range only (named _partial). The drift clause is proved by Flocq error analysis '
+ 'proved for the whole kernel range by Flocq error analysis (C18_freq_roundtrip: the result is x or its neighbour toward zero). The drift clause is proved by Flocq error analysis '
  '(Proofs/UnitsFloatProofs.v: six roundings of at most 2^-53 each, no underflow/overflow, one truncation) on the range named in the assumptions; '
  'C18_drift_oracle and C18_drift_add_oracle state that the model meets both drift oracles on all int64 inputs.'),
-    min_cases={'csptp.formulas': 375, 'csptp.interval': 752, 'csptp.recover': 750, 'csptp.time_of_ts': 187, 'csptp.ts_of_time': 937, 'csptp.ts_roundtrip': 750, 'units.drift': 1503, 'units.drift_add': 750, 'units.freq_of_ppm': 250, 'units.ppm_of_freq': 250, 'units.ppm_roundtrip': 750, 'units.timeval': 752},
+    min_cases={'csptp.formulas': 750, 'csptp.interval': 752, 'csptp.recover': 750, 'csptp.recover_delays': 750, 'csptp.time_of_ts': 187, 'csptp.ts_of_time': 937, 'csptp.ts_roundtrip': 750, 'units.drift': 1503, 'units.drift_add': 750, 'units.freq_of_ppm': 250, 'units.ppm_of_freq': 250, 'units.ppm_roundtrip': 750, 'units.timeval': 752},
 )
